@@ -68,7 +68,8 @@ def evaluate(model, op):
 
 
 def add_contributions(model, which, cloud_pressure):
-    from taurex.contributions import AbsorptionContribution, RayleighContribution, SimpleCloudsContribution
+    from taurex.contributions import (AbsorptionContribution, RayleighContribution, SimpleCloudsContribution,
+                                      FlatMieContribution, LeeMieContribution)
     for w in which:
         if w == 'absorption':
             model.add_contribution(AbsorptionContribution())
@@ -76,6 +77,12 @@ def add_contributions(model, which, cloud_pressure):
             model.add_contribution(RayleighContribution())
         elif w == 'clouds':
             model.add_contribution(SimpleCloudsContribution(clouds_pressure=float(cloud_pressure)))
+        elif w == 'flatmie':        # grey Mie opacity between two pressures (it reads the layer pressures)
+            model.add_contribution(FlatMieContribution(flat_mix_ratio=1e-9, flat_bottomP=float(cloud_pressure) * 10.0,
+                                                       flat_topP=float(cloud_pressure) * 0.01))
+        elif w == 'leemie':
+            model.add_contribution(LeeMieContribution(lee_mie_radius=0.05, lee_mie_q=30.0, lee_mie_mix_ratio=1e-9,
+                                                      lee_mie_bottomP=-1, lee_mie_topP=-1))
         else:
             raise ValueError(w)
 
